@@ -504,6 +504,10 @@ class Project(MessageHandler):
                     task[("scheduled", scIdx)] = True
                 # else: milestone with no dates - let it be scheduled by the main loop
 
+        # Containers that consist of such milestones only are complete now; tasks that
+        # depend on them must be able to become ready
+        self._updateContainerTaskStatus(scIdx)
+
         # Propagate ALAP mode through dependency chains
         # If task B depends on task A, and B is ALAP with fixed end,
         # then A should also be ALAP (scheduled as late as possible)
